@@ -304,10 +304,18 @@ def m_to_affine(ctx, args):
     return val(ctx, args[0])
 
 
+ENC_LEN = {"Scalar": 32, "G1Affine": 48, "G2Affine": 96, "G1Projective": 48, "G2Projective": 96}
+
+
 @model("group::GroupEncoding::to_bytes", "bls12_381::G1Affine::to_compressed", "bls12_381::G2Affine::to_compressed",
        "bls12_381::Scalar::to_bytes")
 def m_to_bytes(ctx, args):
-    return ("bytes", val(ctx, args[0]))
+    t = ("bytes", val(ctx, args[0]))
+    at = ctx.arg_ty(0)
+    n = ENC_LEN.get(_short(at)) if at is not None else None
+    if n is not None:
+        ctx.eng.lens[t] = n         # canonical encoding length (bls12_381 contract)
+    return t
 
 
 @model("bls12_381::G1Affine::to_uncompressed", "bls12_381::G2Affine::to_uncompressed")
@@ -362,16 +370,28 @@ def m_hash_new(ctx, args):
     return ("hash0",)
 
 
+def absorb(h, data):
+    """Absorbing a piecewise buffer is absorbing its pieces in order (a hash sees one byte stream)."""
+    d = data
+    while d[0] in ("copied", "refv"):
+        d = d[1]
+    if d[0] == "concat":
+        for p in d[1]:
+            h = absorb(h, p)
+        return h
+    return ("absorb", h, data)
+
+
 @model("sha3::Digest::update")
 def m_hash_update(ctx, args):
     old = val(ctx, args[0])
-    ctx.eng.write_ref(ctx.st, args[0], ("absorb", old, val(ctx, args[1])))
+    ctx.eng.write_ref(ctx.st, args[0], absorb(old, val(ctx, args[1])))
     return UNIT
 
 
 @model("sha3::Digest::chain")
 def m_hash_chain(ctx, args):
-    return ("absorb", val(ctx, args[0]), val(ctx, args[1]))
+    return absorb(val(ctx, args[0]), val(ctx, args[1]))
 
 
 @model("sha3::Digest::finalize")
@@ -381,7 +401,7 @@ def m_hash_finalize(ctx, args):
 
 @model("sha3::Digest::digest")
 def m_hash_digest(ctx, args):
-    return ("digest", ("absorb", ("hash0",), val(ctx, args[0])))
+    return ("digest", absorb(("hash0",), val(ctx, args[0])))
 
 
 # ---------------------------------------------------------------- integers
@@ -1419,12 +1439,17 @@ def m_index(ctx, args):
     base = args[0]
     idx = args[1]
     v, through_ref, mr = array_like(ctx, base)
+    mutable = ctx.oq.endswith("index_mut") and mr is not None
     if idx[0] == "struct" and idx[1].endswith("Range"):
         lo, hi = idx[3][0], idx[3][1]
         _slice_obligation(ctx, v, lo, hi)
+        if mutable and lo[0] == "int" and hi[0] == "int":
+            return ("ref", mr[1], mr[2] + (("srange", lo[1], hi[1]),))
         return ("refv", ("slice_of", v, lo, hi))
     if idx[0] == "struct" and idx[1].endswith("RangeTo"):
         _slice_obligation(ctx, v, ("int", 0), idx[3][0])
+        if mutable and idx[3][0][0] == "int":
+            return ("ref", mr[1], mr[2] + (("srange", 0, idx[3][0][1]),))
         return ("refv", ("slice_of", v, ("int", 0), idx[3][0]))
     if idx[0] == "struct" and idx[1].endswith("RangeFrom"):
         _slice_obligation(ctx, v, idx[3][0], None)
@@ -1458,14 +1483,39 @@ def m_len(ctx, args):
 def m_copy_from_slice(ctx, args):
     src = val(ctx, args[1])
     dstv, _, mr = array_like(ctx, args[0])
+    if args[0][0] == "ref" and args[0][2] and args[0][2][-1][0] == "srange":
+        # destination is a sub-range of a local buffer: its length is the width of the range
+        from .sym import seq_len
+        lo, hi = args[0][2][-1][1], args[0][2][-1][2]
+        whole = ctx.eng.read_loc(ctx.st, args[0][1], args[0][2][:-1])
+        if hi is None:
+            hi = seq_len(whole, ctx.eng.lens)
+        if isinstance(hi, int):
+            dstv = ("repeat", ("int", 0), hi - lo)
     ctx.eng.obligations.append({
         "kind": "CopyFromSlice", "pc": ctx.st.pc, "cond": None, "expected": None, "ops": [dstv, src],
         "site": ctx.site, "ln": ctx.term["ln"], "callpath": ctx.fr.callpath, "exp": ctx.term["exp"]})
     if args[0][0] == "ref":
         ctx.eng.write_ref(ctx.st, args[0], ("copied", src))
     elif args[0][0] == "refv" and args[0][1][0] == "slice_of":
-        pass
+        ctx.eng.notes.append("copy_from_slice into a slice of an immutable value ignored")
     return UNIT
+
+
+@model("core::slice::split_at_mut")
+def m_split_at_mut(ctx, args):
+    """`buf.split_at_mut(k)` on a local buffer: two disjoint range references into the same cell."""
+    r = args[0]
+    k = args[1]
+    if r[0] == "ref" and k[0] == "int":
+        lo, hi = 0, None
+        base = r[2]
+        if base and base[-1][0] == "srange":
+            lo, hi = base[-1][1], base[-1][2]
+            base = base[:-1]
+        mid = lo + k[1]
+        return ("tuple", (("ref", r[1], base + (("srange", lo, mid),)), ("ref", r[1], base + (("srange", mid, hi),))))
+    return ("call", ctx.oq, tuple(args))
 
 
 @model("std::vec::Vec::new")
